@@ -1181,8 +1181,12 @@ class WorkflowConductor(object):
     def get_task_context(self, ctx_idxs):
         ctx = {}
 
+        # Merge copies of the context entries. Otherwise the merged context shares nested values
+        # with the entries and merging the next entry into it rewrites the recorded contexts.
         for ctx_idx in ctx_idxs:
-            ctx = dict_util.merge_dicts(ctx, self.workflow_state.contexts[ctx_idx], overwrite=True)
+            ctx = dict_util.merge_dicts(
+                ctx, json_util.deepcopy(self.workflow_state.contexts[ctx_idx]), overwrite=True
+            )
 
         return ctx
 
